@@ -158,6 +158,7 @@ theorem inst_iff_den : ∀ (n : Nat) (t : Ty) (v : Val), t.w ≤ n → Ty.WF cfg
         · intro h; exact ⟨x, rfl, h⟩
         · rintro ⟨x', h0, h⟩; cases h0; exact h
       | _ => simp
+    | iterator t' => unfold inst Den; simp
     | iterable t' => unfold Ty.Ref at href; exact absurd href id
     | object p =>
       unfold inst Den
